@@ -65,7 +65,12 @@ class Project:
         path = self.p / name
         path.parent.mkdir(parents=True, exist_ok=True)
         t = self._tick()
-        if replace or not path.exists():
+        if path.is_symlink() and not replace:
+            # a name that is a (possibly dangling) symbolic link of the world: the user edits the file it points to
+            with open(path, "w") as f:
+                f.write(text)
+            os.utime(path, (t, t))
+        elif replace or not path.exists():
             tmp = path.with_name(path.name + ".rvnew")
             tmp.write_text(text)
             os.utime(tmp, (t, t))
@@ -167,7 +172,10 @@ class Project:
             m.user_touch(op[1])
         elif kind == "rm":
             try:
-                os.unlink(self.p / op[1])
+                victim = self.p / op[1]
+                if victim.is_symlink() and op[1] in getattr(self.w, "symlinks", {}):
+                    victim = Path(os.path.realpath(victim))     # the link is part of the world; the file behind it goes
+                os.unlink(victim)
             except FileNotFoundError:
                 pass
             m.user_rm(op[1])
